@@ -191,6 +191,13 @@ def countB (se : Nat) (b : Bag α) : Option Nat := reduction (fun p => p.length)
 def maxB (se : Nat) (b : Bag Int) : Option (Option Int) :=
   reduction (fun p => pyReduce max p) (optReduce max) se b
 
+def minB (se : Nat) (b : Bag Int) : Option (Option Int) :=
+  reduction (fun p => pyReduce min p) (optReduce min) se b
+
+/-- `Bag.any()` / `Bag.all()`: `reduction(any, any)` / `reduction(all, all)` -/
+def anyB (se : Nat) (b : Bag Bool) : Option Bool := reduction (fun p => p.any id) (fun rs => rs.any id) se b
+def allB (se : Nat) (b : Bag Bool) : Option Bool := reduction (fun p => p.all id) (fun rs => rs.all id) se b
+
 /-- `frequencies` as `dict.items()` (first-occurrence order) -/
 def frequencies (xs : List Nat) : List (Nat × Nat) := reduceBy id (fun c _ => c + 1) 0 xs
 def mergeFrequencies (ds : List (List (Nat × Nat))) : List (Nat × Nat) :=
